@@ -276,6 +276,31 @@ func importRejects(c *Ctx, mods ...string) {
 				isRecord := func(z *ir.Expr) bool {
 					return z.Op == "field" && len(z.Args) == 1 && z.Args[0].Op == "elem" && !z.Args[0].Any(func(y *ir.Expr) bool { return y.Op == "field" && y.Name == "Params" })
 				}
+				// a counter that the running chain leaves at zero (an account that has used up its eFUND keeps its locked and spent
+				// records: decrements store a zero coin, nothing deletes the record) is exported at zero: the import must take it
+				if rejects && m == "enterprise" {
+					// the condition itself (under any number of negations) is the zero test, and the side that aborts is the side an
+					// amount of zero takes
+					ce, neg := e, false
+					for ce.Op == "un" && ce.Name == "!" && len(ce.Args) == 1 {
+						ce, neg = ce.Args[0], !neg
+					}
+					zeroTest := false
+					if ce.Op == "call" && (strings.HasSuffix(ce.Name, ").IsZero") || strings.HasSuffix(ce.Name, ").IsPositive")) && ce.Any(func(y *ir.Expr) bool {
+						return y.Op == "field" && (y.Name == "LockedUnd" || y.Name == "SpentEfund" || y.Name == "TotalLocked" || y.Name == "TotalSpent")
+					}) {
+						zeroSide := 0 // IsZero: zero takes the true successor
+						if strings.HasSuffix(ce.Name, ").IsPositive") {
+							zeroSide = 1
+						}
+						if neg {
+							zeroSide = 1 - zeroSide
+						}
+						zeroTest = len(b.Succs) == 2 && onlyAbortsFrom(c, f, b.Succs[zeroSide])
+					}
+					r.Require(!zeroTest, "A7.import-accepts-export", fmt.Sprintf("%s|%s|zero-counter", fn(f), w.InstrPos(iff)), pos(c, iff),
+						"the import refuses no locked / spent counter for being zero (the running chain keeps exhausted accounts' records at zero and exports them)", "rejects on "+e.String())
+				}
 				op, x, y, okc := ir.Pred{E: e, Pol: true}.Cmp()
 				bad := okc && (x.Any(isParam) && y.Any(isRecord) || y.Any(isParam) && x.Any(isRecord))
 				_ = op
